@@ -415,4 +415,443 @@ theorem run_oexists_anyN (cs : List Str) (hcs : ∀ c ∈ cs, GoodComp c) :
 
 end runN
 
+/-! ### listings over n layers -/
+
+/-- the merged listing: every layer, in order, contributes the names it has under `p` -/
+def mergeAll (acc : List Str) (ms : List FMap) (p : Str) : List Str :=
+  ms.foldl (fun a m => mergeStep a (layerNames m p)) acc
+
+theorem mergeAll_cons (acc : List Str) (m : FMap) (ms : List FMap) (p : Str) :
+    mergeAll acc (m :: ms) p = mergeAll (mergeStep acc (layerNames m p)) ms p := rfl
+
+theorem run_mergeListingsN {w : World} {is ids : List Nat} {ms : List FMap} (h : OWN w is ids ms)
+    (cs : List Str) (hcs : ∀ c ∈ cs, GoodComp c) (acc : List Str) :
+    mergeListings (if renderC cs ≠ [] then tail1 (renderC cs) else renderC cs)
+        (layersN is ids) acc w = (.ok (mergeAll acc ms (renderC cs)), w) := by
+  induction h generalizing acc with
+  | nil => rfl
+  | @cons i id m is ids ms h0 hni ht ih =>
+    unfold layersN
+    rw [mergeListings, join_root_actual _ rfl cs hcs, ret_ok_bind]
+    simp only [VPath.withStr]
+    rw [run_mergeLayer h0, mergeAll_cons]
+    exact ih _
+
+theorem mem_mergeAll (acc : List Str) (ms : List FMap) (p x : Str) :
+    x ∈ mergeAll acc ms p ↔ x ∈ acc ∨ ∃ m ∈ ms, x ∈ layerNames m p := by
+  induction ms generalizing acc with
+  | nil => simp [mergeAll]
+  | cons m ms ih =>
+    rw [mergeAll_cons, ih, mem_mergeStep]
+    simp only [List.mem_cons, exists_eq_or_imp]
+    constructor
+    · rintro ((a | a) | a)
+      · exact Or.inl a
+      · exact Or.inr (Or.inl a)
+      · exact Or.inr (Or.inr a)
+    · rintro (a | a | a)
+      · exact Or.inl (Or.inl a)
+      · exact Or.inl (Or.inr a)
+      · exact Or.inr a
+
+theorem nodup_mergeAll (acc : List Str) (ms : List FMap) (p : Str) (h : acc.Nodup) :
+    (mergeAll acc ms p).Nodup := by
+  induction ms generalizing acc with
+  | nil => exact h
+  | cons m ms ih => rw [mergeAll_cons]; exact ih _ (nodup_mergeStep _ _ h)
+
+/-- the listing `read_dir` computes over n layers: merged children, minus the bookkeeping
+directory at the root, minus the names marked in the upper layer -/
+def pListingN (all : List FMap) (p : Str) : List Str :=
+  ((if p = [] then (mergeAll [] all p).filter (fun n => n ≠ woDir) else mergeAll [] all p).filter
+    fun n => n ∉ markedNames (all.headD []) p)
+
+theorem pListingN_cons (mu : FMap) (ms : List FMap) (p : Str) :
+    pListingN (mu :: ms) p =
+      ((if p = [] then (mergeAll [] (mu :: ms) p).filter (fun n => n ≠ woDir)
+        else mergeAll [] (mu :: ms) p).filter fun n => n ∉ markedNames mu p) := rfl
+
+theorem pListingN_two (mu ml : FMap) (p : Str) : pListingN [mu, ml] p = pListing mu ml p := rfl
+
+theorem nodup_pListingN (all : List FMap) (p : Str) : (pListingN all p).Nodup := by
+  unfold pListingN
+  have := nodup_mergeAll [] all p List.nodup_nil
+  apply List.Nodup.sublist List.filter_sublist
+  split
+  · exact List.Nodup.sublist List.filter_sublist this
+  · exact this
+
+theorem woDir_not_listedN (all : List FMap) : woDir ∉ pListingN all [] := by
+  unfold pListingN
+  simp
+
+/-- **the n-layer listing is the union**: a name is listed iff it is a bare name, the n-layer
+view has an entry at `p/name`, and it is not the bookkeeping directory at the root -/
+theorem mem_pListingN (mu : FMap) (ms : List FMap) (p n : Str)
+    (hall : ∀ m ∈ mu :: ms, ChildrenHaveDir m p) (hwo : ChildrenHaveDir mu (woDirOf p)) :
+    n ∈ pListingN (mu :: ms) p ↔
+      ('/' ∉ n ∧ (viewN (mu :: ms) (p ++ '/' :: n)).isSome = true ∧ (p = [] → n ≠ woDir)) := by
+  have hmem : n ∈ mergeAll [] (mu :: ms) p ↔
+      ('/' ∉ n ∧ (mu :: ms).any (fun m => m.contains (p ++ '/' :: n)) = true) := by
+    rw [mem_mergeAll, List.any_eq_true]
+    simp only [List.not_mem_nil, false_or]
+    constructor
+    · rintro ⟨m, hm, hx⟩
+      have := (mem_layerNames m p n (hall m hm)).1 hx
+      exact ⟨this.1, m, hm, this.2⟩
+    · rintro ⟨hn, m, hm, hc⟩
+      exact ⟨m, hm, (mem_layerNames m p n (hall m hm)).2 ⟨hn, hc⟩⟩
+  have hmark : '/' ∉ n → (n ∈ markedNames mu p ↔ mu.contains (marker (p ++ '/' :: n)) = true) := by
+    intro hn
+    apply mem_markedNames mu p n hn
+    intro hc
+    rw [marker_child] at hc
+    obtain ⟨e, he, _⟩ := hwo (n ++ woSuffix)
+      (by simp only [List.mem_append, not_or]; exact ⟨hn, by decide⟩) hc
+    exact contains_of_find he
+  rw [pListingN_cons, viewN_isSome]
+  by_cases hp : p = []
+  · simp only [hp, if_true, List.mem_filter, decide_eq_true_eq, ne_eq] at hmem hmark ⊢
+    rw [hmem]
+    constructor
+    · rintro ⟨⟨⟨hn, hc⟩, hw⟩, hk⟩
+      rw [hmark hn] at hk
+      refine ⟨hn, ?_, fun _ => hw⟩
+      rw [Bool.and_eq_true]
+      exact ⟨by simpa using hk, hc⟩
+    · rintro ⟨hn, hv, hw⟩
+      rw [Bool.and_eq_true] at hv
+      refine ⟨⟨⟨hn, hv.2⟩, hw trivial⟩, ?_⟩
+      rw [hmark hn]; simpa using hv.1
+  · simp only [hp, if_false, List.mem_filter, decide_eq_true_eq, false_implies, and_true]
+    rw [hmem]
+    constructor
+    · rintro ⟨⟨hn, hc⟩, hk⟩
+      rw [hmark hn] at hk
+      refine ⟨hn, ?_⟩
+      rw [Bool.and_eq_true]
+      exact ⟨by simpa using hk, hc⟩
+    · rintro ⟨hn, hv⟩
+      rw [Bool.and_eq_true] at hv
+      refine ⟨⟨hn, hv.2⟩, ?_⟩
+      rw [hmark hn]; simpa using hv.1
+
+/-- the entry `read_dir(p)` inspects: the root of the upper layer, or the view of `p` -/
+def dirEntryN (all : List FMap) (p : Str) : Option Entry :=
+  if p = [] then (all.headD []).find? [] else viewN all p
+
+/-- the outcome of `read_dir(p)` over n layers -/
+def pReadDirN (all : List FMap) (p : Str) : Res (List Str) :=
+  match dirEntryN all p with
+  | none => .err .fileNotFound none
+  | some e => if e.ftype = .dir then .ok (pListingN all p) else .err .other none
+
+section runN2
+variable {w : World} {u idu : Nat} {mu : FMap} {is ids : List Nat} {ms : List FMap}
+  (h : OWN w (u :: is) (idu :: ids) (mu :: ms))
+include h
+
+theorem run_readDirTailN (cs : List Str) (hcs : ∀ c ∈ cs, GoodComp c)
+    (hwo : ∀ e, mu.find? (woDirOf (renderC cs)) = some e → e.ftype = .dir) :
+    readDirTail (layersN (u :: is) (idu :: ids)) (renderC cs) w
+      = (.ok (pListingN (mu :: ms) (renderC cs)), w) := by
+  unfold readDirTail pListingN markedNames
+  simp only [bind, M.bind, run_mergeListingsN h cs hcs, M.ret, List.headD_cons,
+    writeLayer_layersN, woDir_join_layers2 cs hcs, run_vexists h.hu]
+  rcases Option.eq_none_or_eq_some (mu.find? (woDirOf (renderC cs))) with hf | ⟨e, hf⟩
+  · simp only [contains_of_none hf, Bool.false_eq_true, if_false, Pure.pure, M.pure,
+      filter_not_mem_nil]
+  · have hd := hwo e hf
+    simp only [contains_of_find hf, if_true, Pure.pure, M.pure]
+    have hmarks : ∀ names : List Str, (∀ n ∈ names, '/' ∉ n) →
+        (names.map (fun n => VPath.withStr (⟨leafFS u, idu, woDirOf (renderC cs)⟩ : VPath)
+            (woDirOf (renderC cs) ++ '/' :: n))).filterMap
+          (fun m => stripWo (filenameInternal m.path)) = names.filterMap stripWo := by
+      intro names
+      induction names with
+      | nil => intro _; rfl
+      | cons n names ih =>
+        intro hn
+        simp only [List.map_cons, List.filterMap_cons, VPath.withStr]
+        rw [show filenameInternal (woDirOf (renderC cs) ++ '/' :: n) = n from
+          afterLast_append_delim '/' _ n (hn n (by simp))]
+        have := ih (fun x hx => hn x (by simp [hx]))
+        simp only [VPath.withStr] at this
+        rw [this]
+    simp only [M.bind, run_vreadDir h.hu idu _ e hf hd,
+      hmarks _ (children_noSlash mu (woDirOf (renderC cs)))]
+    rfl
+
+/-- `read_dir` on a canonical path (the root included) over n leaf roots, provided
+"/.whiteout" ++ p is not a file of the upper layer -/
+theorem run_oreadDirN (cs : List Str) (hcs : ∀ c ∈ cs, GoodComp c)
+    (hwo : ∀ e, mu.find? (woDirOf (renderC cs)) = some e → e.ftype = .dir) :
+    Overlay.readDir (layersN (u :: is) (idu :: ids)) (renderC cs) w =
+      (pReadDirN (mu :: ms) (renderC cs), w) := by
+  rw [readDir_eq_tail]
+  unfold pReadDirN dirEntryN
+  have htail := run_readDirTailN h cs hcs hwo
+  by_cases hne : cs = []
+  · subst hne
+    have hrp : readPath (layersN (u :: is) (idu :: ids)) (renderC [])
+        = pure (writeLayer (layersN (u :: is) (idu :: ids))) := rfl
+    rw [hrp, writeLayer_layersN]
+    simp only [renderC_nil, List.headD_cons] at htail ⊢
+    rcases Option.eq_none_or_eq_some (mu.find? []) with hf | ⟨e, hf⟩
+    · simp [hf, bind, M.bind, Pure.pure, M.pure, run_vexists h.hu, contains_of_none hf, M.failK,
+        fail]
+    · by_cases hd : e.ftype = .dir
+      · simp [hf, hd, bind, M.bind, Pure.pure, M.pure, run_vexists h.hu, contains_of_find hf,
+          run_visDir h.hu, htail]
+      · simp [hf, hd, bind, M.bind, Pure.pure, M.pure, run_vexists h.hu, contains_of_find hf,
+          run_visDir h.hu, M.failK, fail]
+  · rw [if_neg (renderC_ne_nil hne)]
+    rcases readPath_casesN h cs hne hcs with ⟨hv, hr⟩ | ⟨k, i, id, m, e, hf, hi, hid, hl, he, _, hv, hr⟩
+    · simp [hv, hr, bind, M.bind]
+    · by_cases hd : e.ftype = .dir
+      · simp [hv, hr, hd, he, bind, M.bind, run_vexists hl, hf.has, run_visDir hl, htail]
+      · simp [hv, hr, hd, he, bind, M.bind, run_vexists hl, hf.has, run_visDir hl, M.failK, fail]
+
+/-- `read_path(p)?.metadata()` followed by anything -/
+theorem run_readPath_metadataN {β} (cs : List Str) (hne : cs ≠ []) (hcs : ∀ c ∈ cs, GoodComp c)
+    (k : Meta → M β) :
+    (do let q ← readPath (layersN (u :: is) (idu :: ids)) (renderC cs)
+        let md ← q.metadata
+        k md : M β) w =
+      (match viewN (mu :: ms) (renderC cs) with
+       | some e => k e.meta w
+       | none => (.err .fileNotFound none, w)) := by
+  rcases readPath_casesN h cs hne hcs with ⟨hv, hr⟩ | ⟨j, i, id, m, e, hf, hi, hid, hl, he, _, hv, hr⟩
+  · simp [hv, hr, bind, M.bind]
+  · simp [hv, hr, he, bind, M.bind, run_vmetadata hl, Mem.metadata, Res.withPath]
+
+/-- `read_path(p)?` followed by anything that ignores the path -/
+theorem run_readPath_thenN {β} (cs : List Str) (hne : cs ≠ []) (hcs : ∀ c ∈ cs, GoodComp c)
+    (k : M β) :
+    (do let _ ← readPath (layersN (u :: is) (idu :: ids)) (renderC cs)
+        k : M β) w =
+      (match viewN (mu :: ms) (renderC cs) with
+       | some _ => k w
+       | none => (.err .fileNotFound none, w)) := by
+  rcases readPath_casesN h cs hne hcs with ⟨hv, hr⟩ | ⟨j, i, id, m, e, hf, hi, hid, hl, he, _, hv, hr⟩
+  · simp [hv, hr, bind, M.bind]
+  · simp [hv, hr, bind, M.bind]
+
+/-! ### `ensure_has_parent`, `create_dir`, `create_file` over n layers -/
+
+/-- `ensure_has_parent` as a function of the maps; `ds` are the components of the parent -/
+def pEnsureN (all : List FMap) (ds : List Str) : Res Unit × FMap :=
+  if pexistsN all (renderC ds) then Mem.mkdirs (all.headD []) (chain [] ds)
+  else (.err .other none, all.headD [])
+
+theorem run_ensureHasParentN (cs : List Str) (hne : cs ≠ []) (hcs : ∀ c ∈ cs, GoodComp c) :
+    ensureHasParent (layersN (u :: is) (idu :: ids)) (renderC cs) w =
+      ((pEnsureN (mu :: ms) cs.dropLast).1,
+        w.setLeafFiles u (pEnsureN (mu :: ms) cs.dropLast).2) := by
+  have hds : ∀ c ∈ cs.dropLast, GoodComp c := fun c hc => hcs c (List.dropLast_subset _ hc)
+  unfold ensureHasParent pEnsureN
+  rw [if_pos (slash_mem_renderC hne), parentInternal_renderC cs (good_noSlash hcs),
+    writePath_layersN_any _ hds]
+  by_cases hex : pexistsN (mu :: ms) (renderC cs.dropLast) = true
+  · simp [hex, bind, M.bind, M.ret, run_oexists_anyN h _ hds, run_createDirAll h.hu idu _ hds]
+  · simp [hex, bind, M.bind, M.ret, run_oexists_anyN h _ hds, M.failK, fail, h.hu.same]
+
+theorem run_clearWhiteoutN (cs : List Str) (hne : cs ≠ []) (hcs : ∀ c ∈ cs, GoodComp c) :
+    clearWhiteout (layersN (u :: is) (idu :: ids)) (renderC cs) w =
+      ((pClear mu (renderC cs)).1, w.setLeafFiles u (pClear mu (renderC cs)).2) := by
+  unfold clearWhiteout pClear
+  rw [whiteoutPath_layersN cs hne hcs]
+  by_cases hm : mu.contains (marker (renderC cs)) = true
+  · simp [hm, bind, M.bind, M.ret, run_vexists h.hu, run_pRemoveFile h.hu]
+  · simp [hm, bind, M.bind, M.ret, run_vexists h.hu, Pure.pure, M.pure, h.hu.same]
+
+/-- `create_dir` over n layers -/
+def pCreateDirN (mu : FMap) (ms : List FMap) (cs : List Str) : Res Unit × FMap :=
+  andThen (pEnsureN (mu :: ms) cs.dropLast) fun _ mu1 =>
+    match viewN (mu1 :: ms) (renderC cs) with
+    | some e => (.err (if e.ftype = .file then .fileExists else .dirExists) none, mu1)
+    | none => andThen (Mem.pCreateDir mu1 (renderC cs)) fun _ mu2 => pClear mu2 (renderC cs)
+
+theorem run_ocreateDirN (cs : List Str) (hne : cs ≠ []) (hcs : ∀ c ∈ cs, GoodComp c) :
+    Overlay.createDir (layersN (u :: is) (idu :: ids)) (renderC cs) w =
+      ((pCreateDirN mu ms cs).1, w.setLeafFiles u (pCreateDirN mu ms cs).2) := by
+  unfold Overlay.createDir pCreateDirN
+  simp only [bind, M.bind, run_ensureHasParentN h cs hne hcs]
+  cases hE : pEnsureN (mu :: ms) cs.dropLast with
+  | mk r mu1 =>
+    cases r with
+    | err k pth => rfl
+    | panic => rfl
+    | ok a =>
+      have h1 := h.setHead mu1
+      have hmeta := run_readPath_metadataN h1 cs hne hcs
+        (fun md => (M.failK (if md.ftype = .file then .fileExists else .dirExists) : M Unit))
+      simp only [bind, M.bind, M.failK, fail, Entry.meta] at hmeta
+      simp only [andThen, run_oexistsN h1 cs hne hcs]
+      rcases Option.eq_none_or_eq_some (viewN (mu1 :: ms) (renderC cs)) with hv | ⟨e, hv⟩
+      · simp only [hv, Option.isSome_none, Bool.false_eq_true, if_false, M.ret, M.bind,
+          writePath_layersN cs hne hcs, run_pCreateDir h1.hu]
+        cases hC : Mem.pCreateDir mu1 (renderC cs) with
+        | mk r2 mu2 =>
+          cases r2 with
+          | err k pth => simp only [World.setLeafFiles_twice]
+          | panic => simp only [World.setLeafFiles_twice]
+          | ok a2 =>
+            simp only [run_clearWhiteoutN (h.setHead mu2) cs hne hcs, World.setLeafFiles_twice]
+      · rw [hv] at hmeta
+        simp only [hv, Option.isSome_some, if_true, M.bind, M.failK, fail]
+        exact hmeta
+
+/-- the type check of `create_file` over n layers -/
+def pRefuseN (all : List FMap) (p : Str) : Res Unit :=
+  match viewN all p with
+  | some e => if e.ftype = .dir then .err .other none else .ok ()
+  | none => .ok ()
+
+theorem run_refuseDirN (cs : List Str) (hne : cs ≠ []) (hcs : ∀ c ∈ cs, GoodComp c) :
+    refuseDir (layersN (u :: is) (idu :: ids)) (renderC cs) w
+      = (pRefuseN (mu :: ms) (renderC cs), w) := by
+  unfold refuseDir pRefuseN
+  have hmeta := run_readPath_metadataN h cs hne hcs
+    (fun md => (if md.ftype = .dir then M.failK .other else pure () : M Unit))
+  simp only [bind, M.bind] at hmeta
+  simp only [bind, M.bind, run_oexistsN h cs hne hcs]
+  rcases Option.eq_none_or_eq_some (viewN (mu :: ms) (renderC cs)) with hv | ⟨e, hv⟩
+  · simp [hv, Pure.pure, M.pure]
+  · simp only [hv, Option.isSome_some, if_true, M.bind, hmeta, Entry.meta]
+    by_cases hd : e.ftype = .dir
+    · simp [hd, M.failK, fail]
+    · simp [hd, Pure.pure, M.pure]
+
+/-- `create_file` (the handle aside) over n layers -/
+def pCreateFileN (mu : FMap) (ms : List FMap) (cs : List Str) : Res Unit × FMap :=
+  andThen (pEnsureN (mu :: ms) cs.dropLast) fun _ mu1 =>
+    andThen (pRefuseN (mu1 :: ms) (renderC cs), mu1) fun _ _ =>
+      andThen (Mem.pOpenW mu1 (renderC cs)) fun _ mu2 => pClear mu2 (renderC cs)
+
+theorem run_ocreateFileN (cs : List Str) (hne : cs ≠ []) (hcs : ∀ c ∈ cs, GoodComp c) :
+    Overlay.createFile (layersN (u :: is) (idu :: ids)) (renderC cs) w =
+      ((pCreateFileN mu ms cs).1.map
+        (fun _ => ({ leaf := u, key := renderC cs, kind := .memFile, buf := [], pos := 0 } : WHandle)),
+        w.setLeafFiles u (pCreateFileN mu ms cs).2) := by
+  unfold Overlay.createFile pCreateFileN
+  simp only [bind, M.bind, run_ensureHasParentN h cs hne hcs]
+  cases hE : pEnsureN (mu :: ms) cs.dropLast with
+  | mk r mu1 =>
+    cases r with
+    | err k pth => rfl
+    | panic => rfl
+    | ok a =>
+      have h1 := h.setHead mu1
+      simp only [andThen, run_refuseDirN h1 cs hne hcs]
+      cases hR : pRefuseN (mu1 :: ms) (renderC cs) with
+      | err k pth => rfl
+      | panic => rfl
+      | ok a1 =>
+        simp only [M.ret, M.bind, writePath_layersN cs hne hcs, run_pOpenW h1.hu]
+        cases hC : Mem.pOpenW mu1 (renderC cs) with
+        | mk r2 mu2 =>
+          cases r2 with
+          | err k pth => simp only [Res.map, World.setLeafFiles_twice]
+          | panic => simp only [Res.map, World.setLeafFiles_twice]
+          | ok a2 =>
+            simp only [Res.map, World.setLeafFiles_twice,
+              run_clearWhiteoutN (h.setHead mu2) cs hne hcs]
+            cases hP : pClear mu2 (renderC cs) with
+            | mk r3 mu3 => cases r3 <;> rfl
+
+end runN2
+
+/-! ### `ensure_has_parent` does not change the n-layer view -/
+
+/-- every proper ancestor directory `/d1`, `/d1/d2`, … is a directory of the n-layer view -/
+def AncDirsN (all : List FMap) (ds : List Str) : Prop :=
+  ∀ j, 1 ≤ j → j ≤ ds.length → ∃ e, viewN all (renderC (ds.take j)) = some e ∧ e.ftype = .dir
+
+theorem AncDirsN_two (mu ml : FMap) (ds : List Str) : AncDirsN [mu, ml] ds ↔ AncDirs mu ml ds := by
+  unfold AncDirsN AncDirs
+  simp only [viewN_two]
+
+theorem viewN_upper {mu : FMap} {ms : List FMap} {p : Str} {e : Entry}
+    (hm : mu.contains (marker p) = false) (hf : mu.find? p = some e) :
+    viewN (mu :: ms) p = some e := by
+  rw [viewN_unmarked hm]; simp [firstN, hf]
+
+theorem viewN_lower {mu : FMap} {ms : List FMap} {p : Str}
+    (hm : mu.contains (marker p) = false) (hf : mu.find? p = none) :
+    viewN (mu :: ms) p = firstN ms p := by
+  rw [viewN_unmarked hm]; simp [firstN, hf]
+
+theorem pexistsN_of_anc {mu : FMap} {ms : List FMap} {ds : List Str} (hroot : RootOk mu)
+    (hanc : AncDirsN (mu :: ms) ds) : pexistsN (mu :: ms) (renderC ds) = true := by
+  unfold pexistsN
+  by_cases hne : ds = []
+  · subst hne
+    obtain ⟨e, he, _⟩ := hroot.root
+    simp [hroot.noMark, contains_of_find he]
+  · rw [if_neg (renderC_ne_nil hne)]
+    have hl : 1 ≤ ds.length := by
+      cases ds with
+      | nil => exact absurd rfl hne
+      | cons d ds => simp
+    obtain ⟨e, he, _⟩ := hanc ds.length hl (Nat.le_refl _)
+    rw [List.take_length] at he
+    rw [he]; rfl
+
+theorem chain_dirs_of_ancN {mu : FMap} {ms : List FMap} {ds : List Str}
+    (hanc : AncDirsN (mu :: ms) ds) :
+    ∀ k ∈ chain [] ds, ∀ e, mu.find? k = some e → e.ftype = .dir := by
+  intro k hk e he
+  obtain ⟨j, h1, h2, rfl⟩ := (mem_chain [] ds k).1 hk
+  obtain ⟨e', hv, hd⟩ := hanc j h1 h2
+  simp only [List.nil_append] at he
+  have hm : mu.contains (marker (renderC (ds.take j))) = false := by
+    rw [viewN_cons] at hv
+    split at hv
+    · cases hv
+    · rename_i hm; simpa using hm
+  rw [viewN_upper hm he] at hv
+  injection hv with hv; subst hv; exact hd
+
+/-- under the hypotheses, `ensure_has_parent` succeeds and only fills in missing directories -/
+theorem pEnsureN_ok {mu : FMap} {ms : List FMap} {ds : List Str} (hroot : RootOk mu)
+    (hds : ∀ c ∈ ds, GoodComp c) (hanc : AncDirsN (mu :: ms) ds) :
+    pEnsureN (mu :: ms) ds = (.ok (), fillDirs mu (chain [] ds)) := by
+  unfold pEnsureN
+  rw [if_pos (pexistsN_of_anc hroot hanc)]
+  exact mkdirs_chain mu [] ds (by simp) (good_noSlash hds) hroot.root
+    (chain_dirs_of_ancN hanc)
+
+/-- **`ensure_has_parent` leaves the n-layer view unchanged** (up to the timestamps of the
+directories it materialises in the upper layer) -/
+theorem view_fillDirsN {mu : FMap} {ms : List FMap} {ds : List Str} (hds : ∀ c ∈ ds, GoodComp c)
+    (hanc : AncDirsN (mu :: ms) ds) (hhead : ds.head? ≠ some woDir) (q : Str)
+    (hq : q.head? = some '/') :
+    (viewN (fillDirs mu (chain [] ds) :: ms) q).map dirBlind
+      = (viewN (mu :: ms) q).map dirBlind := by
+  rw [viewN_cons, viewN_cons, contains_marker_fillDirs hds hhead q hq]
+  by_cases hm : mu.contains (marker q) = true
+  · simp [hm]
+  · have hm' : mu.contains (marker q) = false := by simpa using hm
+    simp only [hm, Bool.false_eq_true, if_false, firstN]
+    rw [find?_fillDirs]
+    rcases Option.eq_none_or_eq_some (mu.find? q) with hf | ⟨e, hf⟩
+    · by_cases hk : q ∈ chain [] ds
+      · obtain ⟨j, h1, h2, he⟩ := (mem_chain [] ds _).1 hk
+        simp only [List.nil_append] at he
+        obtain ⟨e', hv, hd⟩ := hanc j h1 h2
+        rw [← he, viewN_lower hm' hf] at hv
+        simp [hf, hk, hv, dirBlind, hd, dirEntryNow]
+      · simp [hf, hk]
+    · simp [hf]
+
+/-- when every ancestor already is in the upper layer, nothing is filled in -/
+theorem fillDirs_of_contains (m : FMap) (ks : List Str) (h : ∀ k ∈ ks, m.contains k = true) :
+    fillDirs m ks = m := by
+  induction ks with
+  | nil => rfl
+  | cons k ks ih =>
+    rw [fillDirs, if_pos (h k (by simp))]
+    exact ih (fun k' hk' => h k' (by simp [hk']))
+
 end Vfs
